@@ -9,7 +9,8 @@ if [ -d mcrewrite ]; then
   (cd mcrewrite && go build -o ../bin/mcrewrite .)
 fi
 (cd lib && go build ./...)
-if [ -d vs ]; then (cd vs && go build ./... && go vet ./... >/dev/null 2>&1 || true); fi
+# the litmus suite validates the scheduler model (trusted base): it must pass before any verdict is believed
+(cd vs && go build ./... && go test -count=1 ./litmus/)
 cp /repo/go.sum mc/go.sum 2>/dev/null || true
 (cd mc && go build ./... ) || true
 echo "setup done"
